@@ -6,6 +6,11 @@ package main
 
 import (
 	"bytes"
+	"crypto/ecdsa"
+	"crypto/elliptic"
+	"crypto/rand"
+	"crypto/x509"
+	"crypto/x509/pkix"
 	"encoding/json"
 	"encoding/pem"
 	"fmt"
@@ -26,9 +31,11 @@ type Step struct {
 	Fault *Fault  `json:"fault,omitempty"`
 	File  *FileIn `json:"file,omitempty"`
 	Path  string  `json:"path,omitempty"`
-	Keep  int     `json:"keep,omitempty"`  // truncate: bytes kept (a proper prefix)
-	Block string  `json:"block,omitempty"` // strip: key | cert | hash | csr
-	From  string  `json:"from,omitempty"`  // copyPem: source path (hash line dropped: a user-supplied artifact)
+	// write: the file gets a modification time older than every other file
+	OldMtime bool   `json:"oldMtime,omitempty"`
+	Keep     int    `json:"keep,omitempty"`  // truncate: bytes kept (a proper prefix)
+	Block    string `json:"block,omitempty"` // strip: key | cert | hash | csr
+	From     string `json:"from,omitempty"`  // copyPem: source path (hash line dropped: a user-supplied artifact)
 }
 
 type HistIn struct {
@@ -127,7 +134,12 @@ func execHist(raw json.RawMessage) any {
 			so["openErr"], so["planErr"], so["updateErr"], so["panic"], so["died"] = res.OpenErr, res.PlanErr, res.UpdateErr, res.Panic, res.Died
 			so["plan"], so["generated"], so["writes"], so["t0"], so["t1"], so["nonPemUnchanged"] = res.Plan, res.Generated, res.Writes, res.T0, res.T1, same
 		case "write":
-			m[st.File.Path] = &fstest.MapFile{Data: []byte(st.File.Text), Mode: 0644, ModTime: time.Now()}
+			mt := time.Now()
+			if st.OldMtime {
+				// an edited copy that keeps an old modification time (cp -p, rsync -t, archive extraction)
+				mt = time.Now().Add(-3 * time.Hour)
+			}
+			m[st.File.Path] = &fstest.MapFile{Data: []byte(st.File.Text), Mode: 0644, ModTime: mt}
 		case "delete":
 			delete(m, st.Path)
 		case "truncate":
@@ -148,6 +160,71 @@ func execHist(raw json.RawMessage) any {
 		case "copyPem":
 			if f, ok := m[st.From]; ok {
 				m[st.Path] = &fstest.MapFile{Data: stripBlock(f.Data, "hash"), Mode: 0644, ModTime: time.Now()}
+			}
+		case "copyKey":
+			// the PRIVATE KEY block of another artifact replaces this one's (hash line and certificate stay)
+			src, ok1 := m[st.From]
+			dst, ok2 := m[st.Path]
+			if ok1 && ok2 {
+				var keyBlock *pem.Block
+				rest := src.Data
+				for {
+					var b *pem.Block
+					b, rest = pem.Decode(rest)
+					if b == nil {
+						break
+					}
+					if strings.Contains(b.Type, "PRIVATE KEY") {
+						keyBlock = b
+					}
+				}
+				if keyBlock != nil {
+					data := append([]byte{}, stripBlock(dst.Data, "key")...)
+					data = append(data, pem.EncodeToMemory(keyBlock)...)
+					m[st.Path] = &fstest.MapFile{Data: data, Mode: 0644, ModTime: time.Now()}
+				}
+			}
+		case "damageKey":
+			// the PRIVATE KEY block stays valid PEM and valid outer PKCS#8, but its inner ECPrivateKey gets version 2
+			// (RSA: the inner version becomes 7): an unusable key, which a default run has to replace
+			if f, ok := m[st.Path]; ok {
+				var out bytes.Buffer
+				rest := f.Data
+				if bytes.HasPrefix(rest, []byte("#HASH:")) {
+					nl := bytes.IndexByte(rest, '\n')
+					out.Write(rest[:nl+1])
+					rest = rest[nl+1:]
+				}
+				for {
+					var b *pem.Block
+					b, rest = pem.Decode(rest)
+					if b == nil {
+						break
+					}
+					if b.Type == "PRIVATE KEY" {
+						d := append([]byte{}, b.Bytes...)
+						if i := bytes.Index(d, []byte{0x02, 0x01, 0x01, 0x04}); i > 0 {
+							d[i+2] = 0x02
+						} else if i := bytes.Index(d[8:], []byte{0x02, 0x01, 0x00, 0x02}); i > 0 {
+							d[8+i+2] = 0x07
+						}
+						b = &pem.Block{Type: b.Type, Bytes: d}
+					}
+					pem.Encode(&out, b)
+				}
+				m[st.Path] = &fstest.MapFile{Data: out.Bytes(), Mode: 0644, ModTime: time.Now()}
+			}
+		case "addCsr":
+			// a CERTIFICATE REQUEST made for a foreign key is put into the artifact (Block "nokey": the private key is removed)
+			if f, ok := m[st.Path]; ok {
+				k := must(ecdsa.GenerateKey(elliptic.P256(), rand.Reader))
+				csr := must(x509.CreateCertificateRequest(rand.Reader, &x509.CertificateRequest{Subject: pkix.Name{CommonName: "foreign request"}}, k))
+				data := append([]byte{}, f.Data...)
+				if st.Block == "nokey" {
+					data = stripBlock(data, "key")
+				}
+				data = append(data, pem.EncodeToMemory(&pem.Block{Type: "CERTIFICATE REQUEST", Bytes: csr})...)
+				m[st.Path] = &fstest.MapFile{Data: data, Mode: 0644, ModTime: time.Now()}
 			}
 		case "appendNote":
 			if f, ok := m[st.Path]; ok {
@@ -232,7 +309,7 @@ func chainScenarios(yield func(any)) {
 		}
 		return ents
 	}
-	triggers := []string{"edit-subject", "delete-pem", "strip-key", "truncate", "strip-cert", "touch", "copy-pem", "note+edit", "edit+delete-child"}
+	triggers := []string{"edit-subject", "delete-pem", "strip-key", "truncate", "strip-cert", "touch", "copy-pem", "note+edit", "edit+delete-child", "swap-key+edit", "csr+edit", "csr-nokey+edit", "damage-key"}
 	for tier := 0; tier < 3; tier++ {
 		for _, trig := range triggers {
 			for w := -1; w < 4; w++ {
@@ -276,6 +353,24 @@ func chainScenarios(yield func(any)) {
 						steps = append(steps, Step{Op: "appendNote", Path: pemPath(e.path)}, Step{Op: "write", File: &f})
 					case "copy-pem":
 						steps = append(steps, Step{Op: "copyPem", Path: pemPath(e.path), From: pemPath(ents[3].path)})
+					case "swap-key+edit", "csr+edit", "csr-nokey+edit":
+						// the artifact's key material is changed by hand, then the entity is re-issued: the new certificate
+						// must carry the public key of the key (or, without a key, of the request) that is in the file
+						c := cloneJ(e.cfg)
+						c["subject"] = c["subject"].(string) + ",OU=Rekeyed"
+						e.cfg = c
+						f := cfgFile(e)
+						switch trig {
+						case "swap-key+edit":
+							steps = append(steps, Step{Op: "copyKey", Path: pemPath(e.path), From: pemPath(ents[(tier+1)%4].path)})
+						case "csr+edit":
+							steps = append(steps, Step{Op: "addCsr", Path: pemPath(e.path)})
+						default:
+							steps = append(steps, Step{Op: "addCsr", Path: pemPath(e.path), Block: "nokey"})
+						}
+						steps = append(steps, Step{Op: "write", File: &f})
+					case "damage-key":
+						steps = append(steps, Step{Op: "damageKey", Path: pemPath(e.path)})
 					case "edit+delete-child":
 						// the issuer is replaced and one of its subscribers is created in the same run
 						issuer, child := []int{0, 1, 0}[tier], []int{1, 2, 3}[tier]
@@ -329,6 +424,11 @@ func profileScenarios(yield func(any)) {
 			p["subjectAttributes"] = J{"attributes": attrs("C?", "O?", "OU?", "CN?"), "allowOther": false}
 		}},
 		{"unconstrained", func(p J) { delete(p, "subjectAttributes") }},
+		// the subject still meets the profile, but the certificate changes: only the profile file is newer
+		{"profile-ext", func(p J) {
+			p["extensions"] = []J{{"keyUsage": J{"content": []string{"digitalSignature"}}}, {"extendedKeyUsage": J{"content": []string{"clientAuth"}}}}
+		}},
+		{"profile-validity", func(p J) { p["validity"] = J{"from": "2031-03-01", "until": "2033-09-15"} }},
 	}
 	for tier := 0; tier < 2; tier++ {
 		for _, ed := range edits {
@@ -421,7 +521,7 @@ func genHist(yield func(any)) {
 					}
 				}
 				f := cfgFile(e)
-				steps = append(steps, Step{Op: "write", File: &f})
+				steps = append(steps, Step{Op: "write", File: &f, OldMtime: chance(1, 4)})
 			case 2:
 				steps = append(steps, Step{Op: "delete", Path: pemPath(e.path)})
 			case 3:
